@@ -13,12 +13,12 @@ extern "C" char sim_mark_data_A[], sim_mark_data_Z[], sim_mark_bss_A[], sim_mark
 extern "C" int exception_handler_usecount __attribute__((weak));
 
 // ------------------------------------------------------------- work plans ---
-enum Api { A_SCANNER_MEM, A_RULES_MEM, A_RULES_FILE, A_RULES_FD, A_SCANNER_BLOCKS, A_RULES_FILE_TRUNC, A_NAPI };
+enum Api { A_SCANNER_MEM, A_RULES_MEM, A_RULES_FILE, A_RULES_FD, A_SCANNER_BLOCKS, A_RULES_FILE_TRUNC, A_RULES_FD_MMAPFAIL, A_NAPI };
 struct ScanPlan { int api; int buf; int reply_at; int reply; int ext_i; int ext_off; int mdata; int timeout; };
 struct TaskPlan { std::vector<ScanPlan> scans; bool compile_task = false; };
-struct RunPlan { int rules_idx; std::vector<TaskPlan> tasks; SchedPolicy pol; };
+struct RunPlan { int rules_idx; std::vector<TaskPlan> tasks; SchedPolicy pol; bool fresh_rules = false; };
 
-struct Shared { YR_RULES* rules; std::vector<std::string> bufs; std::vector<std::string> files; std::string trunc_path; };
+struct Shared { YR_RULES* rules; std::string image; std::vector<std::string> bufs; std::vector<std::string> files; std::string trunc_path; };
 
 static const char* MDATA[] = {"", "mdata-1", "mdata-2"};
 
@@ -45,6 +45,12 @@ static ScanResult do_scan(const Shared& sh, const ScanPlan& p, YR_SCANNER* sc) {
     case A_RULES_MEM: r.rc = yr_rules_scan_mem(sh.rules, (const uint8_t*) buf.data(), buf.size(), 0, recorder_callback, &rec, p.timeout); break;
     case A_RULES_FILE: r.rc = yr_rules_scan_file(sh.rules, sh.files[p.buf].c_str(), 0, recorder_callback, &rec, p.timeout); break;
     case A_RULES_FD: { int fd = open(sh.files[p.buf].c_str(), O_RDONLY); r.rc = yr_rules_scan_fd(sh.rules, fd, 0, recorder_callback, &rec, p.timeout); close(fd); break; }
+    case A_RULES_FD_MMAPFAIL: {
+      // the mapping of this task's descriptor fails (ENOMEM): documented error, and the caller's descriptor stays the caller's
+      static __thread bool t_fail; t_fail = true;
+      struct Hook { static bool fail() { if (t_fail) { t_fail = false; return true; } return false; } };
+      g_fail_mmap_hook = Hook::fail;
+      int fd = open(sh.files[p.buf].c_str(), O_RDONLY); r.rc = sh.bufs[p.buf].empty() ? ERROR_COULD_NOT_MAP_FILE : yr_rules_scan_fd(sh.rules, fd, 0, recorder_callback, &rec, p.timeout); t_fail = false; close(fd); break; }
     case A_RULES_FILE_TRUNC: {
       // a private 3-page file whose tail disappears right after yara mapped it: real SIGBUS inside YR_TRYCATCH
       std::string path = sh.trunc_path + "." + std::to_string(sched_self() < 0 ? 99 : sched_self());
@@ -151,14 +157,14 @@ static GlobalsWatch g_watch;
 // --------------------------------------------------------------- generation --
 static const int NBUF = 6;
 static RunPlan gen_plan(Rng& rng, int nrules, bool big) {
-  RunPlan rp; rp.rules_idx = (int) rng.below(nrules);
+  RunPlan rp; rp.rules_idx = (int) rng.below(nrules); rp.fresh_rules = rng.chance(1, 2);
   int T = big ? (int) rng.range(8, 32) : (int) rng.range(2, 6);
   for (int t = 0; t < T; t++) {
     TaskPlan tp;
     if (!big && rng.chance(1, 10)) { tp.compile_task = true; rp.tasks.push_back(tp); continue; }
     int n = big ? 1 + (int) rng.below(2) : (int) rng.range(2, 6);
     for (int k = 0; k < n; k++) {
-      ScanPlan s; s.api = (int) rng.below(A_NAPI); if (s.api == A_RULES_FILE_TRUNC && !rng.chance(1, 3)) s.api = A_SCANNER_MEM;
+      ScanPlan s; s.api = (int) rng.below(A_NAPI); if ((s.api == A_RULES_FILE_TRUNC || s.api == A_RULES_FD_MMAPFAIL) && !rng.chance(1, 3)) s.api = A_SCANNER_MEM;
       s.buf = (int) rng.below(big ? 3 : NBUF); if (big && s.buf == 1) s.buf = 0;
       s.reply_at = rng.chance(1, 4) ? (int) rng.below(30) : -1; s.reply = rng.chance(1, 2) ? CALLBACK_ABORT : CALLBACK_ERROR;
       s.ext_i = rng.chance(1, 2) ? 42 : (int) rng.below(50); s.ext_off = rng.chance(1, 2) ? 5 : (int) rng.below(9); s.mdata = (int) rng.below(3); s.timeout = rng.chance(1, 3) ? 2 : 0;
@@ -178,16 +184,23 @@ static RunPlan gen_plan(Rng& rng, int nrules, bool big) {
 struct RunReport { std::string sig, klass, detail; uint64_t sched_hash = 0; SchedStats st; int64_t scans = 0; int64_t new_hot = 0; };
 
 static RunReport execute(const std::vector<Shared>& shared, const RunPlan& rp, uint64_t run_seed) {
-  RunReport rep; const Shared& sh = shared[rp.rules_idx];
+  RunReport rep; const Shared& sh0 = shared[rp.rules_idx];
+  // solo references use the long-lived rule set; the concurrent phase gets a copy loaded just now, so that
+  // its threads are the first ever to create scanners on it (lazy per-rule-set initialisation would race here)
+  Shared sh = sh0; YR_RULES* fresh = NULL;
+  if (rp.fresh_rules && load_rules(sh0.image, &fresh) == ERROR_SUCCESS) sh.rules = fresh;
+  const Shared& shs = sh0;
   // ---- solo references (no scheduler; each task's clock alone)
   std::vector<std::vector<ScanResult>> solo;
   g_clock.override_fn = [](int clk, struct timespec* ts) { int id = sched_self(); TaskClock& c = g_tclock[id < 0 ? 63 : id % 63]; c.now += g_clock_step; int64_t t = c.now; if (clk == CLOCK_PROCESS_CPUTIME_ID) { t = 0; for (int i = 0; i < 64; i++) t += g_tclock[i].now - 1000000000LL; } if (clk == CLOCK_REALTIME) t += g_clock.epoch0 * 1000000000LL; ts->tv_sec = t / 1000000000LL; ts->tv_nsec = t % 1000000000LL; return true; };
   g_clock_step = 2000000;      // 2 ms per clock read: a scan with a 2 s timeout survives 1000 of its own reads
-  for (auto& tp : rp.tasks) { for (auto& c : g_tclock) c = TaskClock(); solo.push_back(run_task(sh, tp)); g_watch.diff_full(); }
+  for (auto& tp : rp.tasks) { for (auto& c : g_tclock) c = TaskClock(); solo.push_back(run_task(shs, tp)); g_watch.diff_full(); }
   for (auto& c : g_tclock) c = TaskClock();
   uint64_t rules_hash0 = hash_rules(sh.rules);
   struct sigaction bus0, segv0; sigaction(SIGBUS, NULL, &bus0); sigaction(SIGSEGV, NULL, &segv0);
-  size_t live0 = sim_alloc_live_count(); int fds0 = g_fs.open_fds, maps0 = g_fs.live_maps;
+  size_t live0 = sim_alloc_live_count(); int fds0 = g_fs.open_fds, maps0 = g_fs.live_maps, fc0 = g_fs.foreign_closes;
+  uint64_t seq0 = 0; { auto l0 = sim_alloc_live(); if (!l0.empty()) seq0 = l0.back().seq; }
+  g_fs.refuse_foreign_close = true;
   // ---- concurrent phase
   std::vector<std::vector<ScanResult>> conc(rp.tasks.size());
   g_watch.resync();
@@ -209,7 +222,7 @@ static RunReport execute(const std::vector<Shared>& shared, const RunPlan& rp, u
       rep.scans++;
       if (conc[t][k].rc == solo[t][k].rc && conc[t][k].trace == solo[t][k].trace) continue;
       const ScanPlan* sp = rp.tasks[t].compile_task ? nullptr : &rp.tasks[t].scans[k];
-      static const char* API[] = {"scanner_mem", "rules_mem", "rules_file", "rules_fd", "scanner_blocks", "rules_file_truncated"};
+      static const char* API[] = {"scanner_mem", "rules_mem", "rules_file", "rules_fd", "scanner_blocks", "rules_file_truncated", "rules_fd_mmap_fails"};
       std::string what = conc[t][k].rc != solo[t][k].rc ? std::string("rc:") + yr_error_name(solo[t][k].rc) + "->" + yr_error_name(conc[t][k].rc) : "trace";
       rep.klass = "scan-differs-from-solo"; rep.sig = std::string("conc|") + (sp ? API[sp->api] : "compile") + "|" + what;
       rep.detail = "task " + std::to_string(t) + " scan " + std::to_string(k) + " differs from the same scan run alone (" + what + ")";
@@ -224,7 +237,15 @@ static RunReport execute(const std::vector<Shared>& shared, const RunPlan& rp, u
     if (bus1.sa_sigaction != bus0.sa_sigaction || segv1.sa_sigaction != segv0.sa_sigaction) { rep.klass = "signal-handler-not-restored"; rep.sig = "signals|disposition-changed"; rep.detail = "SIGBUS/SIGSEGV disposition after the run differs from the one before"; }
     else if (&exception_handler_usecount && exception_handler_usecount != 0) { rep.klass = "signal-handler-not-restored"; rep.sig = "signals|usecount-nonzero"; rep.detail = "exception_handler_usecount = " + std::to_string(exception_handler_usecount) + " at quiescence"; }
   }
-  if (rep.sig.empty() && (sim_alloc_live_count() != live0 || g_fs.open_fds != fds0 || g_fs.live_maps != maps0)) { rep.klass = "leak"; rep.sig = "ledger|unbalanced"; rep.detail = "allocations " + std::to_string((long) sim_alloc_live_count() - (long) live0) + ", fds " + std::to_string(g_fs.open_fds - fds0) + ", mappings " + std::to_string(g_fs.live_maps - maps0) + " left after all tasks finished"; }
+  g_fs.refuse_foreign_close = false;
+  if (rep.sig.empty() && g_fs.foreign_closes != fc0) { rep.klass = "descriptor-not-owned-closed"; rep.sig = "ledger|foreign-close"; rep.detail = std::to_string(g_fs.foreign_closes - fc0) + " close() call(s) on descriptors yara did not open (the caller's, or already closed: another thread's file in a real run)"; }
+  // A SIGBUS taken in the middle of regex verification longjmps out of yr_re_exec and loses the fibers in flight
+  // (observation, DESIGN.md 5.C09): no property lists a memory fault as a scan outcome, so runs that contain a
+  // truncated-mapping scan are exempt from the allocation ledger (descriptors and mappings are still checked).
+  bool has_sigbus = false; for (auto& t : rp.tasks) for (auto& sp : t.scans) if (sp.api == A_RULES_FILE_TRUNC) has_sigbus = true;
+  if (rep.sig.empty() && ((!has_sigbus && sim_alloc_live_count() != live0) || g_fs.open_fds != fds0 || g_fs.live_maps != maps0)) { rep.klass = "leak"; rep.sig = "ledger|unbalanced"; rep.detail = "allocations " + std::to_string((long) sim_alloc_live_count() - (long) live0) + ", fds " + std::to_string(g_fs.open_fds - fds0) + ", mappings " + std::to_string(g_fs.live_maps - maps0) + " left after all tasks finished"; { std::string apis; static const char* API2[] = {"scanner_mem", "rules_mem", "rules_file", "rules_fd", "scanner_blocks", "rules_file_truncated", "rules_fd_mmap_fails"}; for (auto& t : rp.tasks) { apis += "{"; for (auto& sp : t.scans) apis += std::string(API2[sp.api]) + (sp.reply_at >= 0 ? "!" : "") + ","; apis += "}"; } rep.detail += " tasks=" + apis; }
+    auto live = sim_alloc_live(); int shown = 0; for (size_t k = live.size(); k > 0 && shown < 3; k--) if (live[k - 1].seq > seq0) { rep.detail += " [" + sim_bt_chain(live[k - 1].bt, 1, 4) + " " + std::to_string(live[k - 1].size) + "B]"; shown++; } }
+  if (fresh) yr_rules_destroy(fresh);
   return rep;
 }
 
@@ -237,7 +258,7 @@ static std::vector<Shared> make_shared(uint64_t seed) {
     if (i == 0) { GenSet all = gen_all_frags(); add_default_externals(lc.spec); lc.spec.sources.push_back({"", all.source() + ext_probe_rules() + "rule md { condition: tests.module_data == \"mdata-1\" }\n"}); Rng r2(5); lc.buffers.push_back("HEAD_EXTMARK " + gen_text_buffer(r2, all.plants(), 1500)); }
     else { lc = gen_labcase(rng, 14, true, true, true); lc.spec.sources[0].second = "import \"tests\"\n" + lc.spec.sources[0].second + "rule md { condition: tests.module_data == \"mdata-1\" }\n"; }
     CompileResult cr = compile_rules(lc.spec); if (!cr.rules) { fprintf(stderr, "c09: shared rules do not compile: %s\n", cr.messages.c_str()); abort(); }
-    sh.rules = cr.rules;
+    sh.rules = cr.rules; save_rules(cr.rules, sh.image);
     sh.bufs = {lc.buffers[0], corpus_file("tiny"), "", gen_text_buffer(rng, "alpha_text reg77ex EXTMARK", 400), corpus_file("elf_with_imports"), std::string(9000, 'q') + " alpha_text"};
     for (size_t b = 0; b < sh.bufs.size(); b++) { std::string p = tmp_dir() + "/c09-" + std::to_string(i) + "-" + std::to_string(b); write_file(p, sh.bufs[b]); sh.files.push_back(p); }
     sh.trunc_path = tmp_dir() + "/c09-trunc-" + std::to_string(i);
@@ -278,7 +299,8 @@ int main(int argc, char** argv) {
     st.c["yields.basic_block"] += rep.st.yields_by_kind[YK_BB]; st.c["yields.alloc"] += rep.st.yields_by_kind[YK_ALLOC] + rep.st.yields_by_kind[YK_FREE]; st.c["yields.mutex"] += rep.st.yields_by_kind[YK_MUTEX]; st.c["yields.signal"] += rep.st.yields_by_kind[YK_SIGNAL]; st.c["yields.clock"] += rep.st.yields_by_kind[YK_CLOCK]; st.c["yields.callback"] += rep.st.yields_by_kind[YK_CALLBACK]; st.c["yields.file"] += rep.st.yields_by_kind[YK_FILE];
     st.c["probe.global_page_first_written_in_concurrent_phase"] += rep.new_hot; st.c["max.hot_global_pages"] = std::max<int64_t>(st.c["max.hot_global_pages"], g_watch.hot.size());
     st.c[std::string("policy.") + std::to_string(plan.pol.kind)]++; st.c["globals_words_written"] = g_watch.words_written;
-    for (auto& t : plan.tasks) for (auto& s : t.scans) if (s.api == A_RULES_FILE_TRUNC) st.c["faults_fired.file_truncated_while_mapped"]++;
+    for (auto& t : plan.tasks) for (auto& s : t.scans) { if (s.api == A_RULES_FILE_TRUNC) st.c["faults_fired.file_truncated_while_mapped"]++; if (s.api == A_RULES_FD_MMAPFAIL) st.c["faults_fired.mmap_failure"]++; }
+    if (plan.fresh_rules) st.c["probe.runs_on_freshly_loaded_rules"]++;
     if (rep.st.switches > 0) st.hash(rep.sched_hash);
     if (dump) { J h = J::obj(); h.set("t", "rh"); h.set("run", i); char b[20]; snprintf(b, sizeof b, "%016llx", (unsigned long long) rep.sched_hash); h.set("h", std::string(b) + ":" + std::to_string(rep.st.switches) + ":" + rep.sig); emit_line(h); }
     if (!rep.sig.empty()) {
